@@ -144,7 +144,7 @@ func c22Witness(base string) bool {
 func TestC22(t *testing.T) {
 	const id = "C22"
 	rec := ev.New(t, id)
-	rec.Rule("rapid-generated aof histories (5..25 mutations as in C21, small payloads so that the last segment stays below 64 KiB; in the thorough tier also 64 KiB payloads and multi-segment logs) - one history in three additionally holds ONE Import of 65/100/130/200 keys (a range hand-over; the state is then judged over the alphabet plus all imported keys, and the cuts are every entry boundary -2..+2, the last three entries and 600 sampled offsets) - are run to a clean stop; then EVERY truncation offset of the last segment file (for segments above 64 KiB: every offset inside the last three entries plus 400 sampled ones) and, for each of the last three entries, zero fill and random fill of entry suffixes (every suffix for entries up to 160 bytes, else 48 sampled) and the rewrite of the entry as a data-less, checksum-less LogEntry of the same length is materialised as a separate data directory and opened with aof.New. Oracle: aof.New fails, or Get/PrefixList of all alphabet keys equal the kvmodel state after some prefix of the acknowledged (accepted) mutations. One evaluation = one image. Non-trivial: the damage starts strictly inside an entry. Distinct = distinct (history, image).")
+	rec.Rule("rapid-generated aof histories (5..25 mutations as in C21; in one history out of three the client keeps one value buffer per key, overwrites it in place right before the next Put of that key and hands the store the same slice again, as pooled request messages do; small payloads so that the last segment stays below 64 KiB; in the thorough tier also 64 KiB payloads and multi-segment logs) - one history in three additionally holds ONE Import of 65/100/130/200 keys (a range hand-over; the state is then judged over the alphabet plus all imported keys, and the cuts are every entry boundary -2..+2, the last three entries and 600 sampled offsets) - are run to a clean stop; then EVERY truncation offset of the last segment file (for segments above 64 KiB: every offset inside the last three entries plus 400 sampled ones) and, for each of the last three entries, zero fill and random fill of entry suffixes (every suffix for entries up to 160 bytes, else 48 sampled) and the rewrite of the entry as a data-less, checksum-less LogEntry of the same length is materialised as a separate data directory and opened with aof.New. Oracle: aof.New fails, or Get/PrefixList of all alphabet keys equal the kvmodel state after some prefix of the acknowledged (accepted) mutations. One evaluation = one image. Non-trivial: the damage starts strictly inside an entry. Distinct = distinct (history, image).")
 	rec.Assume("a lost tail is a truncation of the last segment file, a torn write is an entry whose suffix holds zeros or arbitrary bytes; earlier segments were fsynced when the log cycled (wal.cycle) and are intact",
 		"a CRC-64 collision of a damaged entry is not expected within the explored images")
 	rec.Note("fault_space", "per history: all truncation offsets of the last segment (complete for segments <= 64 KiB) and suffix fills of the last three entries")
@@ -276,7 +276,11 @@ func TestC22(t *testing.T) {
 			hist = append(hist[:at:at], append([]op{imp}, hist[at:]...)...)
 			allKeys = append(append([]string{}, keyAlphabet...), imp.Keys...)
 		}
+		reuse := rapid.IntRange(0, 2).Draw(t, "clientReusesValueBuffers") == 0
 		histKey := opsKey(hashSpec{Name: "chord"}, hist)
+		if reuse {
+			histKey += "|reused-value-buffers"
+		}
 
 		// run the history; remember the model state after every accepted mutation
 		dir := scratchDir(base, "c22")
@@ -285,6 +289,10 @@ func TestC22(t *testing.T) {
 			t.Fatalf("harness: cannot create aof store: %v", err)
 		}
 		defer os.RemoveAll(dir)
+		if reuse {
+			// the client overwrites its per-key value buffer in place and Puts the same slice again
+			run.tr.reuseBuf = map[string][]byte{}
+		}
 		legal := map[string]int{kvmodel.New(kvmodel.HashFn(chord.Hash)).Digest(allKeys, false): 0}
 		for i, o := range hist {
 			if mm := run.mutate(rec, id, o); mm != nil {
